@@ -226,7 +226,9 @@ def precheck (rc pc : List Comp) : List Int → Except Err Unit
 def signedEntry (reactants : List String) (ck : Int) (sk : String) (c : Comp) : Rat :=
   c.get ck * (if reactants.contains sk then -1 else 1)
 
-/-- `A = Matrix([[_get(ck, sk) for sk in subst_keys] for ck in cks])` -/
+/-- `A = Matrix([[_get(ck, sk) for sk in subst_keys] for ck in cks])` followed by the entry-wise rationalisation
+    `A.applyfunc(lambda e: nsimplify(e, rational=True))`: the identity on ints / Fractions; a float amount enters the model as
+    the rational it denotes (its short decimal reading — supplied by the harness, checked against the spied matrix) -/
 def matrix (reactants : List String) (keys : List String) (comps : List Comp) (cks : List Int) : Mat :=
   cks.map fun ck => (keys.zip comps).map fun p => signedEntry reactants ck p.1 p.2
 
